@@ -63,7 +63,26 @@ def _adapter_requests(pkg):
             obs = E.call(E.lookup(BP + 'from_observable_with_backpressure'), [SOpaque('callable', 'factory')])
         else:
             obs = None
-        which = E.path.choice(2, 'interaction')
+        which = E.path.choice(3, 'interaction')
+        if which == 2:
+            # request-response: the handler's observable (given directly or through a future) becomes the response future:
+            # its first element, or an empty payload if it completes empty (Rx: default_if_empty + to_future, assumed semantics)
+            if kind != 0:
+                raise PathEnd('request-response handlers return a plain observable')
+            # (only the ReactiveX v4 adapter accepts a future of an observable; the Rx v3 handler interface returns the observable)
+            via_future = pkg == 'reactivex' and E.path.choice(2, 'observable-given-through-a-future') == 1
+            given = aio.new_future(E, 'result', plain) if via_future else plain
+            log = OpaqueLog(E, returns={'request_response': lambda *a: aio.Awaitable('ready', result=given)})
+            r = E.await_value(E.call(E.getattr(ad, 'request_response'), [payload]))
+            E.cover('response')
+            calls = log.of(delegate)
+            E.prove('request_response:delegate_called_once_with_the_payload', len(calls) == 1 and calls[0][1] == 'request_response' and calls[0][2] == (payload,))
+            ops = r.attrs.get('operators', []) if isinstance(r, SObj) else None
+            E.prove('request_response:response_is_the_first_element_of_exactly_the_handlers_observable_or_an_empty_payload',
+                    isinstance(r, SObj) and r.attrs.get('source') is plain and [getattr(o, 'ident', None) for o in ops] == ['default_if_empty', 'to_future']
+                    and len(ops[0].attrs['args']) == 1 and isinstance(ops[0].attrs['args'][0], SObj) and ops[0].attrs['args'][0].cls.name == 'Payload'
+                    and ops[0].attrs['args'][0].attrs['data'] is None and ops[0].attrs['args'][0].attrs['metadata'] is None)
+            return
         if which == 0:
             log = OpaqueLog(E, returns={'request_stream': lambda *a: aio.Awaitable('ready', result=obs)})
             r = E.await_value(E.call(E.getattr(ad, 'request_stream'), [payload]))
@@ -786,7 +805,7 @@ for _pkg in PKGS:
     harness('c20.%s.delegation' % _pkg, ['C20', 'C12'], functions=[_d + PKGS[_pkg]['adapter'] + '.' + m for m in
             ('on_setup', 'on_metadata_push', 'request_fire_and_forget', 'on_error', 'on_keepalive_timeout', 'on_connection_error', 'on_close', '__init__')],
             replay='c20_delegation', assumptions=RXA)(_delegation(_pkg))
-    harness('c20.%s.adapter_requests' % _pkg, ['C20'], functions=[_d + PKGS[_pkg]['adapter'] + '.request_stream', _d + PKGS[_pkg]['adapter'] + '.request_channel',
+    harness('c20.%s.adapter_requests' % _pkg, ['C20'], functions=[_d + PKGS[_pkg]['adapter'] + '.request_stream', _d + PKGS[_pkg]['adapter'] + '.request_channel', _d + PKGS[_pkg]['adapter'] + '.request_response',
                                                                 _d + 'back_pressure_publisher.py::observable_to_publisher',
                                                                 _d + 'back_pressure_publisher.py::from_observable_with_backpressure'], assumptions=RXA)(_adapter_requests(_pkg))
     harness('c20.%s.client' % _pkg, ['C20', 'C06'], functions=[_d + PKGS[_pkg]['client'] + '.' + m for m in
